@@ -30,6 +30,7 @@ CONSTANTS
   Record = TRUE
   ReadOnly = FALSE
   AckSplit = FALSE
+  HoldCb = FALSE
   RM = FALSE
   Slots = 1
   RmUuids = {1, 2}
